@@ -130,6 +130,7 @@ def run(ctx):
     ctx.not_decided += ['CH-form update algebra and amplitudes', 'measurement and rowsum loops', 'CliffordGate.from_unitary / decomposition / group laws']
     shared.seed_restart_rule(ctx, 'C13.h', ['cirq-core/cirq/'], floor=2, only_files=['qis/clifford_tableau.py', 'sim/clifford/stabilizer_state_ch_form.py', 'qis/quantum_state_representation.py', 'sim/clifford/clifford_simulator.py', 'sim/clifford/stabilizer_sampler.py'])
     ctx.decided.append('C13.h measure() of both stabilizer representations draws every axis from one generator (no per-axis restart of an integer seed)')
+    _independent_draws(ctx, repo)
     ci = repo.cls(TAB)
     rel = ci.mod.rel
 
@@ -684,3 +685,36 @@ def _measurement_rule(ctx, repo):
     ctx.notes.append(f'C13.g compared {n_cmp} interpreted measurements on {len(seen)} distinct two-qubit tableaux and 40 three-qubit ones')
     if n_cmp < 100:
         raise AnalysisError('C13.g: too few measurement comparisons')
+
+
+def _independent_draws(ctx, repo):
+    """C13.i - one random bit per element: a scalar draw is never broadcast over a mask or slice."""
+    ctx.decided.append('C13.i measurement randomness of both stabilizer representations: a single random draw is stored into a single array element, never broadcast through a mask / '
+                       'slice / array index (several X-basis qubits need independent bits, or parities of them come out deterministic)')
+    ctx.rule('C13.i', 'independent bits: in clifford_tableau.py and stabilizer_state_ch_form.py every statement `a[k] = ...prng.<draw>(...)...` whose draw has no size argument uses an index k '
+             'that is not an array-valued expression (an attribute such as self.v, a slice, a comparison, an np.where / nonzero result)', floor=2, style='TNT')
+    DRAWS = {'randint', 'random', 'rand', 'choice', 'binomial', 'integers', 'random_sample', 'uniform'}
+    n = 0
+    for rel in ('cirq-core/cirq/qis/clifford_tableau.py', 'cirq-core/cirq/sim/clifford/stabilizer_state_ch_form.py'):
+        m = repo.module(rel)
+        for fn in [f for f in ast.walk(m.tree) if isinstance(f, ast.FunctionDef)]:
+            arrays = {a.targets[0].id for a in ast.walk(fn) if isinstance(a, ast.Assign) and len(a.targets) == 1 and isinstance(a.targets[0], ast.Name)
+                      and any(isinstance(c, ast.Call) and (call_name(c) or '').split('.')[-1] in ('where', 'nonzero', 'flatnonzero', 'array', 'arange', 'astype') for c in ast.walk(a.value))
+                      and not isinstance(a.value, ast.Subscript)}
+            for st in ast.walk(fn):
+                if not (isinstance(st, ast.Assign) and len(st.targets) == 1 and isinstance(st.targets[0], ast.Subscript)):
+                    continue
+                draws = [c for c in ast.walk(st.value) if isinstance(c, ast.Call) and isinstance(c.func, ast.Attribute) and c.func.attr in DRAWS
+                         and not any(k.arg == 'size' for k in c.keywords) and len(c.args) <= 1]
+                if not draws:
+                    continue
+                n += 1
+                idx = st.targets[0].slice
+                arrayish = isinstance(idx, (ast.Attribute, ast.Slice, ast.Compare, ast.BoolOp, ast.UnaryOp)) or (isinstance(idx, ast.Name) and idx.id in arrays) \
+                    or (isinstance(idx, ast.Call) and (call_name(idx) or '').split('.')[-1] in ('where', 'nonzero', 'flatnonzero')) \
+                    or (isinstance(idx, ast.Tuple) and any(isinstance(e, (ast.Slice, ast.Attribute)) for e in idx.elts))
+                ctx.ob('C13.i', f'{m.name}.{fn.name}:{ast.unparse(st.targets[0])}', not arrayish, '' if not arrayish else
+                       f'`{ast.unparse(st)[:80]}` stores one random draw through the array-valued index `{ast.unparse(idx)}`: every selected element gets the same bit, so e.g. the parity of '
+                       'two X-basis qubits is always even', m.rel, st.lineno)
+    if n == 0:
+        raise AnalysisError('C13.i: no random draw stored into an array element found')
